@@ -109,7 +109,7 @@ const c15OnelineTemplate = "{{range $ := .}}{{$.Filepath}}:{{$.Line}}:{{$.Column
 func TestVerifC15(t *testing.T) {
 	r := vNewReport("C15")
 	defer r.Write(t)
-	r.Extra["rule"] = "4 workflows (one of them not YAML at all) x 13 -ignore sets x 4 paths globs x 4 config ignore sets given by the repository's actionlint.yaml or by -config-file (repository without its own) x {no further entry, a further matching entry, a further non-matching entry, patterns given as YAML aliases} x 4 working directories x 5 path spellings (relative, ./relative, absolute; piped through stdin with a relative / absolute -stdin-filename) through Command.Main (-oneline -no-color), complete product; oracle: unfiltered list minus diagnostics matched by a CLI pattern or by a config pattern whose glob matches the root-relative path, order preserved, exit 1 iff non-empty; plus every ordered pair / triple of files of 4 different locations (repository, sibling repository, nested repository, no repository) x 3 working directories x relative / absolute spelling x {-oneline, equivalent -format template} in one invocation; plus exit-status rows (invalid flag 2; unreadable file, bad config, bad -ignore regexp, bad config regexp, non-string ignore element 3). class = (remaining diagnostics, exit status); non-trivial = something is filtered"
+	r.Extra["rule"] = "4 workflows (one of them not YAML at all) x 13 -ignore sets x 4 paths globs x 4 config ignore sets given by the repository's actionlint.yaml or by -config-file (repository without its own) x {no further entry, a further matching entry, a further non-matching entry, patterns given as YAML aliases} x 4 working directories x 5 path spellings (relative, ./relative, absolute; piped through stdin with a relative / absolute -stdin-filename) through Command.Main (-oneline -no-color), complete product; oracle: unfiltered list minus diagnostics matched by a CLI pattern or by a config pattern whose glob matches the root-relative path, order preserved, exit 1 iff non-empty; plus every ordered pair / triple of files of 6 different locations (repository, sibling repository, nested repository, no repository, repositories whose .git is a file: alone and nested) x 3 working directories x relative / absolute spelling x {-oneline, equivalent -format template} in one invocation; plus exit-status rows (invalid flag 2; unreadable file, bad config, bad -ignore regexp, bad config regexp, non-string ignore element 3). class = (remaining diagnostics, exit status); non-trivial = something is filtered"
 	r.Extra["assumptions"] = []string{"glob match bits are part of the scenario table (written by hand for 4 globs x 3 files)", "working directory is process-global: cases run sequentially inside each worker process"}
 	orig, _ := os.Getwd()
 	defer os.Chdir(orig)
@@ -126,6 +126,13 @@ func TestVerifC15(t *testing.T) {
 		"parent/proj/sub/.github/actionlint.yaml": "paths:\n  '.github/workflows/s.yml':\n    ignore:\n      - 'undefined variable'\n",
 		"parent/proj/sub/.github/workflows/s.yml": c15Workflows["w2.yml"],
 		"other/loose.yml":                         c15Workflows["w2.yml"],
+		// a repository whose .git is a FILE (linked worktree / submodule), standing alone and nested in proj
+		"parent/wt/.git":                          "gitdir: /somewhere/.git/worktrees/wt\n",
+		"parent/wt/.github/actionlint.yaml":       "paths:\n  '.github/workflows/t.yml':\n    ignore:\n      - 'shell name'\n",
+		"parent/wt/.github/workflows/t.yml":       c15Workflows["w2.yml"],
+		"parent/proj/mod/.git":                    "gitdir: ../.git/modules/mod\n",
+		"parent/proj/mod/.github/actionlint.yaml": "paths:\n  '**/m.yml':\n    ignore:\n      - 'undefined variable'\n      - 'shell name'\n",
+		"parent/proj/mod/.github/workflows/m.yml": c15Workflows["w2.yml"],
 	}
 	for n, c := range c15Workflows {
 		files["parent/proj/.github/workflows/"+n] = c
@@ -390,6 +397,8 @@ func TestVerifC15(t *testing.T) {
 			{filepath.Join(base, "parent/quiet/.github/workflows/q.yml"), nil},
 			{filepath.Join(root, "sub/.github/workflows/s.yml"), []string{"shell name"}},
 			{filepath.Join(base, "other/loose.yml"), []string{"undefined variable", "shell name"}},
+			{filepath.Join(base, "parent/wt/.github/workflows/t.yml"), []string{"undefined variable"}},
+			{filepath.Join(root, "mod/.github/workflows/m.yml"), nil},
 		}
 		var orders [][]int
 		for a := range mfs {
